@@ -65,10 +65,19 @@ Lemma argument_cast_still_raises_value_error :
   = Err EValue.
 Proof. reflexivity. Qed.
 
-(** F-C07b: no initial context + a short-flag cluster -> AttributeError. *)
-Lemma refuted_no_initial :
-  exists cs argv, parser_ok cs = true /\ parser_parse cs None false argv = Err EAttr.
-Proof. exists small_cs, ["-abc"]. split; vm_compute; reflexivity. Qed.
+(** Since repair e36c9e6 (F-C07b fixed): a parser without initial context
+    splits a short-flag cluster without dereferencing a missing context; the
+    unknown first piece is an ordinary ParseError.  The guard of the theorem
+    holds for such parsers. *)
+Lemma no_initial_cluster_is_parse_error :
+  c07_guard small_cs None = true /\
+  parser_parse small_cs None false ["-abc"] = Err EParse /\
+  exists r, parser_parse small_cs None false ["t"; "-fn"; "x"; "q"; "5"] = Ok r
+            /\ List.length (pr_ctxs r) = 2.
+Proof.
+  split; [vm_compute; reflexivity|]. split; [vm_compute; reflexivity|].
+  eexists. split; vm_compute; reflexivity.
+Qed.
 
 (** F-C07c: a list-kind flag left without a value is accepted. *)
 Lemma refuted_list :
